@@ -160,7 +160,9 @@ func (gp *GenginePool) getGengine() (*gengineWrapper, error) {
 	for {
 		gp.getEngineLock.Lock()
 		//check if there has enough resource in pool
+		gp.runningLock.Lock()
 		numFree := len(gp.freeGengines)
+		gp.runningLock.Unlock()
 		if numFree > 0 {
 			gp.runningLock.Lock()
 			gw := gp.freeGengines[0]
@@ -171,7 +173,9 @@ func (gp *GenginePool) getGengine() (*gengineWrapper, error) {
 		}
 
 		//check if there has addition resource
+		gp.additionLock.Lock()
 		numAddition := len(gp.additionGengines)
+		gp.additionLock.Unlock()
 		if numAddition > 0 {
 			gp.additionLock.Lock()
 			gw := gp.additionGengines[0]
